@@ -6,6 +6,7 @@ import (
 	"io"
 	"os"
 	"strings"
+	"sync"
 
 	"github.com/koestler/go-victron/vedirect"
 	"github.com/koestler/go-victron/vedirectapi"
@@ -256,4 +257,84 @@ func loggerOfKind(kind int, c *capLogger) vedirect.Logger {
 		return name
 	}
 	return c
+}
+
+// parallelIoLogs: several drivers, each with its own port and its own I/O logger, polled from their own goroutines (one
+// driver per device is how the library is used): every line a driver's logger receives carries the bytes written and
+// consumed by THAT driver's call - nothing of a neighbour's traffic
+func parallelIoLogs(s *Sink, rng *Rng) {
+	const drivers, calls = 4, 300
+	type drv struct {
+		port *Port
+		log  *capLogger
+		vd   *vedirect.Vedirect
+		addr uint16
+		mark byte
+	}
+	var ds []*drv
+	for d := 0; d < drivers; d++ {
+		addr := uint16(0x1000 + d)
+		mark := byte('a' + d)
+		var replies [][][]byte
+		for c := 0; c < calls; c++ {
+			val := make([]byte, 1500)
+			for i := range val {
+				val[i] = mark
+			}
+			val[0] = byte('0' + c%10)
+			replies = append(replies, one(simGet(addr, 0, val)))
+		}
+		p := NewPort(nil, replies, nil, nil, nil)
+		l := &capLogger{}
+		vd, err := vedirect.NewVedirect(p, vedirect.Config{IoLogger: l})
+		if err != nil {
+			return
+		}
+		ds = append(ds, &drv{p, l, vd, addr, mark})
+	}
+	var wg sync.WaitGroup
+	panicked := make([]bool, drivers)
+	for i, d := range ds {
+		wg.Add(1)
+		go func(i int, d *drv) {
+			defer wg.Done()
+			defer func() {
+				if r := recover(); r != nil {
+					panicked[i] = true
+				}
+			}()
+			for c := 0; c < calls; c++ {
+				d.vd.GetString(d.addr)
+			}
+		}(i, d)
+	}
+	wg.Wait()
+	for i, d := range ds {
+		op := fmt.Sprintf("parallel io logs: driver %d of %d (register 0x%04X, %d calls)", i, drivers, d.addr, calls)
+		if panicked[i] {
+			s.Violate(op, "PANIC", "a typed call panicked while other drivers were logging")
+			continue
+		}
+		if len(d.log.lines) != calls {
+			s.Violate(op, fmt.Sprint(len(d.log.lines)), fmt.Sprintf("%d io log lines for %d typed calls", len(d.log.lines), calls))
+			continue
+		}
+		for c, ln := range d.log.lines {
+			tx, rx, ok := parseIoLine(ln)
+			want := simGet(d.addr, 0, nil)
+			_ = want
+			foreign := false
+			for o := 0; o < drivers; o++ {
+				if byte('a'+o) != d.mark && bytes.Contains(rx, bytes.Repeat([]byte(fmt.Sprintf("%02X", 'a'+o)), 8)) {
+					foreign = true
+				}
+			}
+			if !ok || c >= len(d.port.Written) || string(tx) != string(d.port.Written[c]) || foreign ||
+				bytes.Count(rx, []byte(fmt.Sprintf("%02X", d.mark))) < 1400 {
+				s.Violate(op, ln[:min(len(ln), 160)], fmt.Sprintf("line %d of this driver's I/O log does not carry the bytes written / consumed by this driver's call %d (its frames carry only '%c' bytes): %s", c, c, d.mark, ln[:min(len(ln), 120)]))
+				break
+			}
+		}
+	}
+	s.Extra["parallel_io_log_lines_checked"] += drivers * calls
 }
